@@ -1,11 +1,12 @@
 """C12 — concurrent senders never interleave, lose or strand a message.
 
 Correspondence = trace acceptance.  The REAL `Connection._send` (and the real `Channel.send` under it) runs on
-real threads under the line-level cooperative scheduler (harness/sched.py): every source line of `_send` is
-a scheduling point, and so is every stream write after the first of a packet.  The connection's three shared
-objects are replaced by recording ones (instance attributes of a bare `Connection`): the queue (a `list`
-subclass), the send lock (`sched.SchedLock`: one bit, no owner — blocking would be a scheduler state), and
-the stream under the real `Channel`.  They log the shared actions the code actually performs — append,
+real threads under the line-level cooperative scheduler (harness/sched.py): every source line of `_send` that
+mentions `self` is a scheduling point, and so is every stream write after the first of a packet.  The
+connection's three shared objects are replaced by recording ones (instance attributes of a bare
+`Connection`): the queue (a `list` subclass), the send lock (`sched.SchedLock`, mirroring the kind of lock the
+constructor installs: one bit, no owner — blocking would be a scheduler state), and the stream under the
+real `Channel`.  They log the shared actions the code actually performs — append,
 queue truth test + result, try-lock + result, pop + what was popped, each stream write + which piece of
 which packet, release, return, exception — whatever the source text looks like, so renamed locals, moved
 comments or an equivalent test do not disturb the mapping.  A re-entrant send is a call of `conn._send`
@@ -14,9 +15,10 @@ from inside the stream's `write` on the same thread (a finalizer running during 
 Each explored schedule's action sequence is given to the compiled Lean model (`drv_sendq`) as a trace to
 ACCEPT: the model thread must be able to take the same action with the same result at every step; the
 final-state facts of both sides are compared as well (wire parsed by the real `Channel.recv`).
-Exploration: exhaustive depth-first enumeration with replay (all interleavings at source-line granularity,
-up to commutation of lines that touch nothing shared — those are found by AST: no mention of `self`),
-preemption-bounded enumeration, and seeded random schedules.
+Exploration (what each line of `_send` may touch is read off its AST, nothing is hard-coded): path-exhaustive
+depth-first enumeration with replay (all interleavings at source-line granularity up to the order of steps
+on different shared objects), state-exhaustive enumeration for the larger configurations, preemption-bounded
+enumeration for three threads, and seeded random schedules.
 
 Direct oracle (real code only): the property restated on one schedule.
 """
@@ -545,13 +547,15 @@ class Batch:
         self.ctx = ctx
         self.pending = []
 
-    def add(self, family, conf, run, res, forced_local_bad=0):
+    def add(self, family, conf, run, res):
         if run.inexpressible:
             self.c.error = "Channel.send made %d writes for one packet; the model knows 1 or 3" % len(
                 run.pieces[run.inexpressible[0]])
         line = run.op_line()
         want = run.facts(res)
         case = dict(kind="schedule", progs=conf["progs"], reent=conf["reent"], schedule=list(res.schedule))
+        if res.pruned:
+            case["prefix"] = True         # the exploration cut this execution short: a real prefix
         self.pending.append((family, case, line, want, list(run.actions)))
         if len(self.pending) >= 4000:
             self.flush()
@@ -569,6 +573,8 @@ class Batch:
         for (family, case, line, want, actions), got in zip(self.pending, outs):
             c.evaluations += 1
             c.count("family:" + family)
+            if case.get("prefix"):
+                c.count("executions-cut-as-prefix")
             c.count("steps", len(case["schedule"]))
             kinds = set(a[0] for a in actions)
             sw = sum(1 for a, b in zip(actions, actions[1:]) if thread_of(a) != thread_of(b))
